@@ -27,7 +27,7 @@ RULE = ("sequences of 0-7 header lines over the pragma grammar: start symbol, ke
         "line of each category or one duplicate at every position), boundary (fixed list), adversarial (random mix, "
         "CR/LF inside lines); modes Strict/Lenient/Silent/default; plus derive cases (from_reader copy, 0-5 mutations "
         "of the copy then 0-5 of the source: replace/delete/assign value/assign key/append contig/new contigs) and op-sequence "
-        "cases (a parsed or from_reader-derived header, 1-6 set/del/pop/clear/popitem operations through the "
+        "cases (a parsed or from_reader-derived header, 1-6 set/del/pop/clear/popitem operations and in-place `header[key].value = ...` edits through the "
         "MutableMapping API, validate()+accessors+scheme()+str() observed after every operation and compared with the "
         "same pragmas parsed afresh). "
         "non-trivial: at least two records kept, or a diagnostic reported, or a mutation applied; distinct by case hash")
@@ -131,6 +131,12 @@ def _hops(rng, present):
         elif r < 0.55:
             out.append(["popitem"])
             keys = keys[1:]
+        elif r < 0.7:
+            # edit the stored record object in place (text-valued keys only)
+            k = rng.choice(["version", "annotation.spec", "center", "k"])
+            v = (rng.choice(["gdc-1.0.0", "v9", "no-version"]) if k == "version"
+                 else rng.choice(["gdc-1.0.0-public", "gdc-1.0.0", "junk"]) if k == "annotation.spec" else "edited")
+            out.append(["value", k, v])
         else:
             k = rng.choice(OP_KEYS)
             if k == "version":
@@ -174,6 +180,9 @@ def corpus():
          "derive": False, "ops": [["del", "annotation.spec"]]},
         {"kind": "ops", "stream": "corpus", "lines": ["#version gdc-1.0.0"], "derive": True,
          "ops": [["pop", "version"], ["set", "version", ["t", "gdc-1.0.0"]], ["clear"]]},
+        # ... nor an in-place edit of a record's value
+        {"kind": "ops", "stream": "corpus", "lines": ["#version gdc-1.0.0", "#annotation.spec gdc-1.0.0-public"],
+         "derive": False, "ops": [["value", "annotation.spec", "gdc-1.0.0-protected"], ["value", "version", "v9"]]},
         {"kind": "header", "stream": "corpus", "mode": "Silent", "lines":
             ["#version gdc-1.0.0", "#annotation.spec gdc-1.0.0-public", "#sort.order Coordinate", "#contigs chr1,chr2", "#k a  b  "]},
         {"kind": "derive", "stream": "corpus", "lines": ["#version gdc-1.0.0", "#contigs chr1,chr2", "#sort.order Coordinate"],
